@@ -44,6 +44,22 @@ pub fn run(ctx: &mut Ctx) {
             run_history(ctx, &cfg, &ops, &c2);
         });
     }
+    // fault injection on hash quality (hooks H6/H7): node hashes fall into 8-64 classes, so the
+    // table meets different nodes with one 64-bit hash all the time and has to compare the nodes
+    // themselves (`Hash`/`Eq` of BddNode are consulted on unequal nodes, which never happens with
+    // the real hash); function, canonicity, shape and membership are checked as usual
+    for case in ctx.cases("weak_hash", 500, true) {
+        ctx.run_case("weak_hash", case, move |ctx, rng| {
+            let mut cfg = random_cfg(rng, 6, true);
+            cfg.nops = rng.range(10, 60);
+            let ops = gen_history(&cfg, rng);
+            let w = crate::caps::WeakHash::new(Some(crate::caps::weak_classes(rng, &ctx.profile.clone(), false)), Some(*rng.pick(&[1u64, 2, 5, 17])));
+            let all = Checks { function: true, std_triple: false, canon: true, record_canon: false, keep_ptrs: false };
+            run_history(ctx, &cfg, &ops, &all);
+            ctx.count("histories_with_weak_hashes", 1);
+            ctx.count("unique_table_hash_clashes", w.clashes());
+        });
+    }
     for case in ctx.cases("long", 12, true) {
         let c2 = checks.clone();
         ctx.run_case("long", case, move |ctx, rng| {
